@@ -7,6 +7,7 @@
 // expand_compound_pos, resolve_size_delta, resolve_position. Real-number model.
 //@assume fstr/strp/strp_length/split_compound_attr are deterministic functions of their string (uninterpreted); BoundingBox::locspec meets loc_point and Length::adjust meets adjust_len (both proved in U-geom); eval_rel_attributes rewrites only the VALUES of attributes already present (iterates a clone of the attribute map and inserts under the same key); eval_text_anchor only adds a default text-loc
 //@assume R-abstract in resolve_size_delta: the `(w, h)` basis (Option combinators with closures over strp) is size_basis(); `strp_length(..).map(|dw| w.map(|x| dw.adjust(x)))` is adjusted() with the meaning written in adjust_spec
+//@assume pos_attr_helper / eval_size_attr: `split_once(' ')`, `strip_prefix(SEP)`, `str::parse`, extract_dx_dy and the reference lookup (split_relspec + get_element_bbox) are deterministic partial functions of their string (uninterpreted); BoundingBox::scalarspec meets scalar_of (proved in U-geom)
 //@assume R-abstract in resolve_position: points/d relspec expansion and the `use` target-size adjustment are opaque helpers that leave the attribute map / Position otherwise unconstrained
 use vstd::prelude::*;
 //@prelude fmt_macro
@@ -31,6 +32,9 @@ pub type Result<T> = core::result::Result<T, SvgdxError>;
 //@ keep-derive Clone Copy
 //@end
 //@item src/position.rs :: struct BoundingBox
+//@ keep-derive Clone Copy
+//@end
+//@item src/position.rs :: enum ScalarSpec
 //@ keep-derive Clone Copy
 //@end
 //@item src/element.rs :: struct SvgElement
@@ -99,6 +103,79 @@ pub fn adjusted(d: &String, w: Option<R32>) -> (r: Result<Option<R32>>)
         (r is Ok && r->Ok_0 is Some) == (a is Some) && (a is Some ==> val(r->Ok_0->Some_0) == a->Some_0) })
 { unimplemented!() }
 
+
+// ------------------------------------------------------------------------------ '@loc' / '~scalar' attribute values
+pub open spec fn rabs_(x: real) -> real { if x < 0real { -x } else { x } }
+pub open spec fn scalar_of(b: BoundingBox, ss: ScalarSpec) -> real {
+    let (x1, y1, x2, y2) = bx(b);
+    match ss {
+        ScalarSpec::Minx => x1, ScalarSpec::Maxx => x2, ScalarSpec::Miny => y1, ScalarSpec::Maxy => y2,
+        ScalarSpec::Width => rabs_(x2 - x1), ScalarSpec::Height => rabs_(y2 - y1),
+        ScalarSpec::Cx => (x1 + x2) / 2real, ScalarSpec::Cy => (y1 + y2) / 2real,
+        ScalarSpec::Radius => if rabs_(x2 - x1) / 2real >= rabs_(y2 - y1) / 2real { rabs_(x2 - x1) / 2real } else { rabs_(y2 - y1) / 2real },
+        ScalarSpec::Rx => rabs_(x2 - x1) / 2real, ScalarSpec::Ry => rabs_(y2 - y1) / 2real,
+    }
+}
+pub uninterp spec fn split_head(s: Seq<char>) -> Seq<char>;      // split_once(' '): before the first blank (all of it if none)
+pub uninterp spec fn split_rest(s: Seq<char>) -> Seq<char>;      // after it ("" if none)
+pub uninterp spec fn strip_sep(s: Seq<char>, sep: char) -> Option<Seq<char>>;
+pub uninterp spec fn scalar_parse(s: Seq<char>) -> Option<ScalarSpec>;
+pub uninterp spec fn loc_parse(s: Seq<char>) -> Option<LocSpec>;
+pub uninterp spec fn dxdy_parse(s: Seq<char>) -> Option<(real, real)>;
+pub open spec fn is_x_scalar(ss: ScalarSpec) -> bool { ss is Minx || ss is Maxx || ss is Cx }
+pub open spec fn is_y_scalar(ss: ScalarSpec) -> bool { ss is Miny || ss is Maxy || ss is Cy }
+/// the side an attribute anchors on when no @loc is given: x2="#a" means a's right edge
+pub open spec fn default_loc(ss: ScalarSpec) -> LocSpec {
+    match ss {
+        ScalarSpec::Minx => LocSpec::Left, ScalarSpec::Maxx => LocSpec::Right, ScalarSpec::Cx => LocSpec::Center,
+        ScalarSpec::Miny => LocSpec::Top, ScalarSpec::Maxy => LocSpec::Bottom, ScalarSpec::Cy => LocSpec::Center,
+        ScalarSpec::Width => LocSpec::Right, ScalarSpec::Radius => LocSpec::Right, ScalarSpec::Rx => LocSpec::Right,
+        ScalarSpec::Height => LocSpec::Bottom, ScalarSpec::Ry => LocSpec::Bottom,
+    }
+}
+pub const SCALARSPEC_SEP: char = '~';
+pub const LOCSPEC_SEP: char = '@';
+#[verifier::external_body]
+pub fn split_once_blank<'a>(s: &'a str) -> (r: (&'a str, &'a str)) ensures r.0@ == split_head(s@), r.1@ == split_rest(s@) { unimplemented!() }
+#[verifier::external_body]
+pub fn strip_prefix_char<'a>(s: &'a str, sep: char) -> (r: Option<&'a str>) ensures (match strip_sep(s@, sep) { Some(t) => r is Some && r->Some_0@ == t, None => r is None }) { unimplemented!() }
+#[verifier::external_body]
+pub fn parse_scalarspec(s: &str) -> (r: Result<ScalarSpec>) ensures (match scalar_parse(s@) { Some(x) => r == Ok::<ScalarSpec, SvgdxError>(x), None => r is Err }) { unimplemented!() }
+#[verifier::external_body]
+pub fn parse_locspec(s: &str) -> (r: Result<LocSpec>) ensures (match loc_parse(s@) { Some(x) => r == Ok::<LocSpec, SvgdxError>(x), None => r is Err }) { unimplemented!() }
+#[verifier::external_body]
+pub fn strp_length(s: &str) -> (r: Result<Length>) ensures (match length_parse(s@) { Some(x) => r == Ok::<Length, SvgdxError>(x), None => r is Err }) { unimplemented!() }
+impl Length {
+    /// proved in U-geom
+    #[verifier::external_body]
+    pub fn adjust(&self, x: R32) -> (r: R32) ensures val(r) == adjust_len(*self, val(x)) { unimplemented!() }
+}
+impl vstd::std_specs::convert::FromSpecImpl<ScalarSpec> for LocSpec {
+    open spec fn obeys_from_spec() -> bool { true }
+    open spec fn from_spec(v: ScalarSpec) -> Self { default_loc(v) }
+}
+impl From<ScalarSpec> for LocSpec {
+//@item src/position.rs :: impl From<ScalarSpec> for LocSpec :: fn from
+//@ ensures
+//@ - r == default_loc(value)     @@C09.loc.default_side
+//@end
+}
+impl ScalarSpec {
+//@item src/position.rs :: impl FromStr for ScalarSpec :: fn from_str
+//@ ensures
+//@ - (value@ == "x"@ || value@ == "x1"@) ==> r == Ok::<ScalarSpec, SvgdxError>(ScalarSpec::Minx)
+//@ - (value@ == "y"@ || value@ == "y1"@) ==> r == Ok::<ScalarSpec, SvgdxError>(ScalarSpec::Miny)
+//@ - value@ == "x2"@ ==> r == Ok::<ScalarSpec, SvgdxError>(ScalarSpec::Maxx)
+//@ - value@ == "y2"@ ==> r == Ok::<ScalarSpec, SvgdxError>(ScalarSpec::Maxy)
+//@ - value@ == "cx"@ ==> r == Ok::<ScalarSpec, SvgdxError>(ScalarSpec::Cx)
+//@ - value@ == "cy"@ ==> r == Ok::<ScalarSpec, SvgdxError>(ScalarSpec::Cy)
+//@ - (value@ == "w"@ || value@ == "width"@) ==> r == Ok::<ScalarSpec, SvgdxError>(ScalarSpec::Width)
+//@ - (value@ == "h"@ || value@ == "height"@) ==> r == Ok::<ScalarSpec, SvgdxError>(ScalarSpec::Height)
+//@ - value@ == "r"@ ==> r == Ok::<ScalarSpec, SvgdxError>(ScalarSpec::Radius)
+//@ - value@ == "rx"@ ==> r == Ok::<ScalarSpec, SvgdxError>(ScalarSpec::Rx)
+//@ - value@ == "ry"@ ==> r == Ok::<ScalarSpec, SvgdxError>(ScalarSpec::Ry)     @@C09.scalar.names
+//@end
+}
 impl DirSpec {
 //@item src/position.rs :: impl DirSpec :: fn to_locspec
 //@ ensures
@@ -111,6 +188,8 @@ impl DirSpec {
 impl BoundingBox {
     #[verifier::external_body]
     pub fn locspec(&self, ls: LocSpec) -> (r: (R32, R32)) ensures (val(r.0), val(r.1)) == loc_point(*self, ls) { unimplemented!() }
+    #[verifier::external_body]
+    pub fn scalarspec(&self, ss: ScalarSpec) -> (r: R32) ensures val(r) == scalar_of(*self, ss) { unimplemented!() }
 }
 /// opaque pieces of resolve_position
 #[verifier::external_body]
@@ -151,6 +230,35 @@ impl SvgElement {
     pub fn target_element_bbox(&self, ctx: &Ctx) -> (r: Result<Option<BoundingBox>>)
         ensures (match target_bbox(*self, *ctx) { Some(b) => r == Ok::<Option<BoundingBox>, SvgdxError>(b), None => r is Err })
     { unimplemented!() }
+
+    #[verifier::external_body]
+    pub fn extract_dx_dy(&self, input: &str) -> (r: Result<(R32, R32)>)
+        ensures (match dxdy_parse(input@) { Some(p) => r is Ok && val(r->Ok_0.0) == p.0 && val(r->Ok_0.1) == p.1, None => r is Err })
+    { unimplemented!() }
+//@item src/element.rs :: impl SvgElement :: fn pos_attr_helper
+//@ strlit "text" "text-loc" "c"
+//@ replace[R-splitonce] <<<remain.split_once(' ').unwrap_or((remain, ""))>>> => <<<split_once_blank(remain)>>>
+//@ replace[R-strip] <<<loc_str.strip_prefix(SCALARSPEC_SEP)>>> => <<<strip_prefix_char(loc_str, SCALARSPEC_SEP)>>>
+//@ replace[R-strip] <<<loc_str.strip_prefix(LOCSPEC_SEP)>>> => <<<strip_prefix_char(loc_str, LOCSPEC_SEP)>>>
+//@ replace[R-parse] <<<v = bbox.scalarspec(ss.parse()?);>>> => <<<v = bbox.scalarspec(parse_scalarspec(ss)?);>>>
+//@ replace[R-parse] <<<loc = ls.parse()?;>>> => <<<loc = parse_locspec(ls)?;>>>
+//@ replace[R-parse] <<<LocSpec::from_str(&self.get_attr("text-loc").unwrap_or("c".to_owned()))?>>> => <<<parse_locspec(&self.get_attr("text-loc").unwrap_or("c".to_string()))?>>>
+//@ replace[R-use] <<<            use ScalarSpec::*;\n>>> => <<<>>>
+//@ replace-re[R-use] <<<\b(Minx|Maxx|Cx|Miny|Maxy|Cy) (\||=>)>>> => <<<ScalarSpec::\1 \2>>>
+//@ replace[R-tostring] <<<Ok(fstr(v).to_string())>>> => <<<Ok(fstr(v))>>>
+//@ ensures
+//@ - strip_sep(split_head(remain@), '~') is Some ==> (match scalar_parse(strip_sep(split_head(remain@), '~')->Some_0) {
+//@       Some(ss) => r is Ok && r->Ok_0@ == fstr_spec(match length_parse(split_rest(remain@)) { Some(l) => adjust_len(l, scalar_of(*bbox, ss)), None => scalar_of(*bbox, ss) }),
+//@       None => r is Err })     @@C09.scalar.value
+//@ - strip_sep(split_head(remain@), '~') is None && r is Ok ==> ({
+//@       let explicit = strip_sep(split_head(remain@), '@');
+//@       let dflt = if self.name@ == "text"@ { loc_parse(match map_get(self.attrs@, "text-loc"@) { Some(t) => t, None => "c"@ }) } else { Some(default_loc(attr_ss)) };
+//@       let loc = if explicit is Some { loc_parse(explicit->Some_0) } else { dflt };
+//@       loc is Some && dxdy_parse(split_rest(remain@)) is Some && ({
+//@           let p = loc_point(*bbox, loc->Some_0); let d = dxdy_parse(split_rest(remain@))->Some_0;
+//@           r->Ok_0@ == fstr_spec(if is_x_scalar(attr_ss) { p.0 + d.0 } else if is_y_scalar(attr_ss) { p.1 + d.1 } else { scalar_of(*bbox, attr_ss) }) }) })     @@C09.loc.value
+//@ - strip_sep(split_head(remain@), '~') is None && strip_sep(split_head(remain@), '@') is None && split_head(remain@).len() > 0 ==> r is Err     @@C09.loc.junk_rejected
+//@end
 
 //@item src/element.rs :: impl SvgElement :: fn place_at
 //@ replace[R-opaque-type] <<<ctx: &impl ContextView>>> => <<<ctx: &Ctx>>>
